@@ -60,6 +60,28 @@ func init() {
 				ok := len(a) == 2 && Desc(a[0]) == "P0.failureCounter" && re(`^`+key+`$`).MatchString(Desc(a[1]))
 				r.Cond(ok, "C36.key", FnName(fn)+"#"+shortCallee(c), c.Pos(), "counter key must be hex(marshalPublicKey(executing wallet public key)); got "+abbr(Desc(a[len(a)-1]), 3))
 			}
+			// every nil return after a successful signing either is the low-activity path (counted) or has reset the run
+			r.Rule("C36.paths", "after a successful signing: low activity ⇒ increment before returning; otherwise ⇒ reset before returning", 3)
+			resets := Sites(fn, `^pkg/tbtc\.heartbeatFailureCounter\.reset$`, true)
+			for _, p := range SuccessReturns(fn) {
+				if !HasFact(p.Facts, okOf(`pkg/tbtc\.heartbeatSigningExecutor\.sign`)) {
+					continue
+				}
+				var before []ssa.CallInstruction
+				what := "reset"
+				if HasFact(p.Facts, lowActivity) {
+					before, what = incs, "increment"
+				} else {
+					before = resets
+				}
+				ok := false
+				for _, c := range before {
+					if InstrBefore(c, p.Ret) {
+						ok = true
+					}
+				}
+				r.Cond(ok, "C36.paths", FnName(fn)+"#return-after-sign/"+what, p.Ret.Pos(), "a completed heartbeat must "+what+" the wallet's failure run before returning")
+			}
 			r.FieldUnderLock("C36.lock", "pkg/tbtc", "heartbeatFailureCounter", "counters", "mutex", nil)
 			r.OnlyCalledFrom("C36.only-door", `^pkg/tbtc\.heartbeatFailureCounter\.(increment|reset)$`, 2, "pkg/tbtc.heartbeatAction.execute")
 			// bodies of the three counter methods
